@@ -7,7 +7,8 @@
      flows n k v s            sum of the branch terminal flows at k = injection s*baseMVA minus the bus shunt v^2*(GS - jBS)
      resid_p/resid_q          cons - gen + flows          (nodal balance  <=>  resid == 0)
      mism_p/mism_q            the Newton mismatch of bus k in MVA (zero up to the solver tolerance on convergence)
-     zipdef_*, gendef_*       closed-form size of the two ZIP defects,  qsplit_loss  the EPS loss of the Q split
+     zipdef_*                 closed-form size of the ZIP-averaging defect,  qsplit_loss  the EPS loss of the Q split
+     gendef_*, *_old          the rule before the repair of pfsoln (static PD/QD at generator buses) and of the DC shunt results
    Injection s = V_k conj((Ybus V)_k) and |V_k| = v are arbitrary rationals (the solver is an oracle). *)
 From Coq Require Import ZArith QArith Qabs List Bool.
 From PPV Require Import Base.QN Base.QC C01.Model C01.Proofs C01.Balance C01.YbusModel C01.Ybus.
@@ -43,39 +44,41 @@ Theorem C01_imbalance_formula_q : forall n k v s,
 Proof. exact imbalance_q. Qed.
 Print Assumptions C01_imbalance_formula_q.
 
-(* generator buses: _update_p/_update_q add the static PD/QD, so voltage dependent demand at the bus is lost *)
+(* generator buses (repaired pfsoln: injection + the demand the solver used): the same formula without a mismatch term
+   at reference buses, plus the EPS loss of the split for Q *)
 Theorem C01_imbalance_ref_bus_p : forall n ref k v s,
   memn k ref = true -> split_ok n k = true ->
-  resid_p n ref k v s (flows n k v s) == gendef_p n k v.
+  resid_p n ref k v s (flows n k v s) == - zipdef_p n k v.
 Proof. exact imbalance_ref_p. Qed.
 Print Assumptions C01_imbalance_ref_bus_p.
 
 Theorem C01_imbalance_gen_bus_q : forall n k v s,
   has_gen n k = true -> ~ qg_den n k == 0 ->
-  resid_q n k v s (flows n k v s) == gendef_q n k v + qsplit_loss n k s.
+  resid_q n k v s (flows n k v s) == - zipdef_q n k v + qsplit_loss n k v s.
 Proof. exact imbalance_gen_q. Qed.
 Print Assumptions C01_imbalance_gen_bus_q.
 
 (* generator result extraction: the gen rows of a reference bus sum to  inj P + local Pd  (equal and weighted split),
    the gen rows of any bus sum to  inj Q + local Qd  minus the EPS loss of the range-proportional split *)
-Theorem C01_gen_p_split_sums : forall n ref k s,
-  memn k ref = true -> split_ok n k = true -> gen_p n ref k s == p_bus n k s.
+Theorem C01_gen_p_split_sums : forall n ref k v s,
+  memn k ref = true -> split_ok n k = true -> gen_p n ref k v s == p_bus n k v s.
 Proof. exact gen_p_sum. Qed.
 Print Assumptions C01_gen_p_split_sums.
 
-Theorem C01_gen_q_split_sums : forall n k s,
-  has_gen n k = true -> ~ qg_den n k == 0 -> gen_q n k s == q_tot0 n k s - qsplit_loss n k s.
+Theorem C01_gen_q_split_sums : forall n k v s,
+  has_gen n k = true -> ~ qg_den n k == 0 -> gen_q n k v s == q_tot0 n k v s - qsplit_loss n k v s.
 Proof. exact gen_q_sum. Qed.
 Print Assumptions C01_gen_q_split_sums.
 
-Theorem C01_qsplit_loss_bound : forall n k s,
+Theorem C01_qsplit_loss_bound : forall n k v s,
   0 < sumf g_qmax (gens_on_at n k) - sumf g_qmin (gens_on_at n k) ->
-  Qabs (qsplit_loss n k s) <=
-  Qabs (q_tot0 n k s - sumf g_qmin (gens_on_at n k)) * EPS / (sumf g_qmax (gens_on_at n k) - sumf g_qmin (gens_on_at n k)).
+  Qabs (qsplit_loss n k v s) <=
+  Qabs (q_tot0 n k v s - sumf g_qmin (gens_on_at n k)) * EPS / (sumf g_qmax (gens_on_at n k) - sumf g_qmin (gens_on_at n k)).
 Proof. exact qsplit_loss_bound. Qed.
 Print Assumptions C01_qsplit_loss_bound.
 
-(* Partial theorems: under the guards the balance holds exactly when the Newton mismatch is zero. *)
+(* Partial theorems: under the guards G01p/G01q the balance holds exactly when the Newton mismatch is zero,
+   at PQ buses, at PV buses and at reference buses. *)
 Theorem C01_balance_partial : forall n ref k v s,
   has_gen n k = false -> G01p n k = true -> G01q n k = true ->
   mism_p n k v s == 0 -> mism_q n k v s == 0 ->
@@ -84,16 +87,16 @@ Proof. exact balance_partial_pq. Qed.
 Print Assumptions C01_balance_partial.
 
 Theorem C01_balance_partial_pv : forall n ref k v s,
-  memn k ref = false -> has_gen n k = true -> ~ qg_den n k == 0 -> G01p n k = true -> G01gq n k = true ->
+  memn k ref = false -> has_gen n k = true -> ~ qg_den n k == 0 -> G01p n k = true -> G01q n k = true ->
   mism_p n k v s == 0 ->
-  resid_p n ref k v s (flows n k v s) == 0 /\ resid_q n k v s (flows n k v s) == qsplit_loss n k s.
+  resid_p n ref k v s (flows n k v s) == 0 /\ resid_q n k v s (flows n k v s) == qsplit_loss n k v s.
 Proof. exact balance_partial_pv. Qed.
 Print Assumptions C01_balance_partial_pv.
 
 Theorem C01_balance_partial_ref : forall n ref k v s,
   memn k ref = true -> split_ok n k = true -> has_gen n k = true -> ~ qg_den n k == 0 ->
-  G01gp n k = true -> G01gq n k = true ->
-  resid_p n ref k v s (flows n k v s) == 0 /\ resid_q n k v s (flows n k v s) == qsplit_loss n k s.
+  G01p n k = true -> G01q n k = true ->
+  resid_p n ref k v s (flows n k v s) == 0 /\ resid_q n k v s (flows n k v s) == qsplit_loss n k v s.
 Proof. exact balance_partial_ref. Qed.
 Print Assumptions C01_balance_partial_ref.
 
@@ -104,13 +107,21 @@ Theorem C01_balance_refuted :
 Proof. exact balance_refuted. Qed.
 Print Assumptions C01_balance_refuted.
 
-Theorem C01_balance_refuted_gen_bus :
-  exists n ref k v, memn k ref = true /\ split_ok n k = true /\ G01p n k = true /\
-    forall s, ~ resid_p n ref k v s (flows n k v s) == 0.
-Proof. exact balance_refuted_gen_bus. Qed.
-Print Assumptions C01_balance_refuted_gen_bus.
+(* the rule before the repair of pfsoln is refuted (and its formula proved): static PD/QD at a generator bus; the same
+   witness balances under the repaired rule *)
+Theorem C01_old_gen_bus_rule_formula : forall n k v s,
+  resid_p_ref_old n k v s == gendef_p n k v /\ resid_q_gen_old n k v s == gendef_q n k v.
+Proof. intros. split; [apply old_ref_p | apply old_gen_q]. Qed.
+Print Assumptions C01_old_gen_bus_rule_formula.
+Theorem C01_old_gen_bus_rule_refuted :
+  G01p witg_net 0 = true /\ G01gp witg_net 0 = false /\
+  (forall s, ~ resid_p_ref_old witg_net 0 witg_v s == 0) /\
+  (forall s, resid_p witg_net [0%nat] 0 witg_v s (flows witg_net 0 witg_v s) == 0).
+Proof. exact old_rule_refuted_gen_bus. Qed.
+Print Assumptions C01_old_gen_bus_rule_refuted.
 
-(* The guards are exact: when one fails, the corresponding defect is non-zero at some positive voltage. *)
+(* The guards are exact: when one fails, the corresponding defect is non-zero at some positive voltage
+   (G01gp/G01gq are the guards of the old generator-bus rule). *)
 Theorem C01_guard_exact_p : forall n k, G01p n k = false -> exists v, 0 < v /\ ~ zipdef_p n k v == 0.
 Proof. exact G01p_exact. Qed.
 Print Assumptions C01_guard_exact_p.
@@ -124,22 +135,22 @@ Theorem C01_guard_exact_gen_q : forall n k, G01gq n k = false -> exists v, 0 < v
 Proof. exact G01gq_exact. Qed.
 Print Assumptions C01_guard_exact_gen_q.
 
-(* DC power flow: the DC bus equation holds, yet the reported shunt/ward power is scaled by VM^2 *)
-Theorem C01_dc_imbalance_formula : forall n k v pinj gsum,
-  dc_resid_p n k v pinj gsum == dc_mism n k pinj gsum + dcdef_p n k v.
-Proof. exact dc_imbalance. Qed.
-Print Assumptions C01_dc_imbalance_formula.
-Theorem C01_dc_balance_partial : forall n k v pinj gsum,
-  G01dc n k v = true -> dc_mism n k pinj gsum == 0 -> dc_resid_p n k v pinj gsum == 0.
-Proof. intros n k v pinj gsum G M. rewrite dc_imbalance, M, (G01dc_dcdef _ _ _ G). reflexivity. Qed.
-Print Assumptions C01_dc_balance_partial.
-Theorem C01_dc_balance_refuted :
-  exists n k v pinj gsum, dc_mism n k pinj gsum == 0 /\ ~ dc_resid_p n k v pinj gsum == 0.
-Proof. exact dc_refuted. Qed.
-Print Assumptions C01_dc_balance_refuted.
-Theorem C01_dc_guard_exact : forall n k v, G01dc n k v = false -> ~ dcdef_p n k v == 0.
+(* DC power flow (repaired: shunt / ward powers reported at unit voltage): the reported powers balance the DC bus equation *)
+Theorem C01_dc_balance : forall n k pinj gsum, dc_resid_p n k pinj gsum == dc_mism n k pinj gsum.
+Proof. exact dc_balance. Qed.
+Print Assumptions C01_dc_balance.
+(* the rule before the repair (VM^2 scaling): formula, exact guard and refutation *)
+Theorem C01_dc_old_imbalance_formula : forall n k v pinj gsum,
+  dc_resid_p_old n k v pinj gsum == dc_mism n k pinj gsum + dcdef_p n k v.
+Proof. exact dc_imbalance_old. Qed.
+Print Assumptions C01_dc_old_imbalance_formula.
+Theorem C01_dc_old_refuted :
+  exists n k v pinj gsum, dc_mism n k pinj gsum == 0 /\ ~ dc_resid_p_old n k v pinj gsum == 0.
+Proof. exact dc_old_refuted. Qed.
+Print Assumptions C01_dc_old_refuted.
+Theorem C01_dc_old_guard_exact : forall n k v, G01dc n k v = false -> ~ dcdef_p n k v == 0.
 Proof. exact G01dc_exact. Qed.
-Print Assumptions C01_dc_guard_exact.
+Print Assumptions C01_dc_old_guard_exact.
 
 (* res_bus.p_mw/q_mvar (stacked arrays summed by pandapower bus) = net consumption reported by the element tables *)
 Theorem C01_res_bus_is_net_consumption : forall n ref vs ss pb,
